@@ -85,6 +85,10 @@ EXPLANATION += (
     ' Round 9: the keys blob_to_hdf5 requires before writing results are stored by the mapping step and never removed before the writer is called (R-AGREE/hdf5-results-condition); a record key restored from a dataset the writer fills from no record key is reported (R-SCHEMA/hdf5-field-map).'
 )
 
+EXPLANATION += (
+    ' Round 10: the live configuration is not edited after its copy for the record was taken (R-SAMEVAL/config-as-recorded).'
+)
+
 RULE_TEXT = (
     "one obligation per consumed record key, per dataset, per record key "
     "of the codec, per constant relation; non-trivial when the key / "
